@@ -86,6 +86,7 @@ def detect(sid, extra=None):
     det = {}
     try:
         if rc != 0:
+            sh("git -C %s reset -q --hard" % REPO)
             det["error"] = "patch does not apply: " + o[-300:]
         else:
             for cid in ids:
@@ -97,7 +98,7 @@ def detect(sid, extra=None):
                 msg = [l.strip()[:300] for l in o.splitlines() if "failed after" in l or "--- FAIL" in l][:3]
                 det[cid] = {"exit": rc, "caught": rc == 1 and bool(v), "wall_s": round(time.time() - t0, 1), "first_messages": msg}
     finally:
-        sh("git -C %s checkout -- . && git -C %s clean -fdq" % (REPO, REPO))
+        sh("git -C %s reset -q --hard && git -C %s clean -fdq" % (REPO, REPO))
         sh("rm -rf %s/replays/*" % VERIF)
     meta["detection"] = det
     meta["detected_by"] = [c for c, r in det.items() if isinstance(r, dict) and r.get("caught")]
